@@ -34,11 +34,15 @@ typedef struct {
     const unsigned char *kind, *nk; const unsigned char (*str)[TS + 1]; const unsigned char (*key)[TS + 1]; const int *ival; const unsigned char *flag;
     cJSON *node[TNN];           /* snapshot: node pointers by index (NULL if absent) */
     char *ownstr[TNN], *ownkey[TNN];
+    unsigned char bkey[TNN], bstr[TNN];     /* node i was built with a borrowed key / borrowed string */
 } vf_tree;
 
 /* which kinds a harness admits: bit k set => kind k of the list below may occur */
 #ifndef VF_KINDS
 #define VF_KINDS 0x7F           /* null false true number string array object; add 0x80 for raw */
+#endif
+#ifndef VF_ROOT_KINDS
+#define VF_ROOT_KINDS 0xFF         /* kinds admitted for the root (VF_KINDS applies to all other nodes) */
 #endif
 #define VF_FLAG_REF 1           /* string node / container whose payload is borrowed (cJSON_IsReference) */
 #define VF_FLAG_CONSTKEY 2      /* key is borrowed (cJSON_StringIsConst) */
@@ -75,7 +79,7 @@ static cJSON *vf_build_rec(vf_tree *t, unsigned i, int member)
     if (member) {
         if ((VF_FLAGS & VF_FLAG_CONSTKEY) && (t->flag[i] & VF_FLAG_CONSTKEY)) {
             memcpy(vf_borrow_key[i], t->key[i], TS); vf_borrow_key[i][TS] = 0;
-            n->string = vf_borrow_key[i]; n->type |= cJSON_StringIsConst;
+            n->string = vf_borrow_key[i]; n->type |= cJSON_StringIsConst; t->bkey[i] = 1;
         } else {
             char *k = (char *)vf_own(TS + 1); memcpy(k, t->key[i], TS); k[TS] = 0; n->string = k; t->ownkey[i] = k;
         }
@@ -85,7 +89,7 @@ static cJSON *vf_build_rec(vf_tree *t, unsigned i, int member)
     else if (kind == cJSON_String || kind == cJSON_Raw) {
         if ((VF_FLAGS & VF_FLAG_REF) && (t->flag[i] & VF_FLAG_REF) && kind == cJSON_String) {
             memcpy(vf_borrow_str[i], t->str[i], TS); vf_borrow_str[i][TS] = 0;
-            n->valuestring = vf_borrow_str[i]; n->type |= cJSON_IsReference;
+            n->valuestring = vf_borrow_str[i]; n->type |= cJSON_IsReference; t->bstr[i] = 1;
         } else {
             char *s = (char *)vf_own(TS + 1); memcpy(s, t->str[i], TS); s[TS] = 0; n->valuestring = s; t->ownstr[i] = s;
         }
@@ -104,7 +108,7 @@ static void vf_tree_assume(const vf_tree *t)
 {
     unsigned i;
     for (i = 0; i < TNN; i++) {
-        VF_ASSUME(vf_kind_admitted(t->kind[i]));
+        if (i > 0) VF_ASSUME(vf_kind_admitted(t->kind[i])); else VF_ASSUME(((VF_ROOT_KINDS) >> (t->kind[0] % 8)) & 1);
 #ifdef VF_INTMAX
         VF_ASSUME(t->ival[i] >= -(VF_INTMAX) && t->ival[i] <= (VF_INTMAX));   /* stated bound: magnitude of integer payloads in tree-level queries */
 #endif
